@@ -1,6 +1,19 @@
 import NmVerif.Proto
 import NmVerif.Containers.NDArrayObj
+import NmVerif.Index.Reshape
+import NmVerif.Index.Slice
+import NmVerif.Driver.C05
 import NmVerif.Arr
+/-
+  Driver for C20: answers the requests of harness/h_c20*.cpp with the MODEL (NmVerif.NDObj, the view models of
+  Index/Reshape.lean and Index/Slice.lean).
+    ndobj    kind=<k> [x=1] ops=<op>;<op>;…   operation sequence on an array object (x=1: extended answer format with
+                                               astrides=, and the ops cast:<kind> / dcast:<dtype>)
+    castkind src=<fx|cf|cfc> shape=… tag=<kind tag> base=<int>   cast(a, kind) from a compile-time-shaped source
+    mview    (one write through ref/flatten/reshape, row-major source)
+    mviewall kind=<ref|flatten|reshape|slice> lay=<r|c> shape=… [to=…] [sl=… enc=<packed|dynP|dynA>] v=<int>
+             one write per destination index of the view, whole source buffer after each
+-/
 namespace NmVerif.Driver.C20
 open NmVerif NmVerif.Proto NmVerif.NDObj
 
@@ -17,6 +30,12 @@ def cfgOf : String → Option Cfg
   | "ff" => some ⟨.fixedDim 2, .fixed 6, false⟩
   | "hyb" => some ⟨.fixedDim 2, .bounded 8, false⟩     -- hybrid_ndarray<int,8,2>
   | "dyn" => some ⟨.dyn, .dyn, false⟩                   -- dynamic_ndarray<int>
+  | "lf" => some ⟨.clipped [2, 3], .fixed 6, false⟩     -- ndarray_t<array<int,6>, tuple<clipped_size_t<2>,clipped_size_t<3>>>
+  | "lfc" => some ⟨.clipped [2, 3], .fixed 6, true⟩
+  | _ => none
+
+def dtypeOf : String → Option DType
+  | "i8" => some .i8 | "u8" => some .u8 | "i16" => some .i16 | "i64" => some .i64 | "f64" => some .f64
   | _ => none
 
 def parseOp (s : String) : Option Op :=
@@ -29,32 +48,79 @@ def parseOp (s : String) : Option Op :=
 def fmtState (st : St) (r : Bool) (nd : Nat) : String :=
   s!"r={if r then 1 else 0} shape={fmtNats st.shape} strides={fmtNats (reportedStrides st)} n={st.data.length} data={fmtInts (st.data.take nd)}"
 
+/-- extended format: the addressing strides (the offset functor's) after the classic fields -/
+def fmtStateX (x : Bool) (st : St) (r : Bool) (nd : Nat) : String :=
+  fmtState st r nd ++ (if x then s!" astrides={fmtNats st.strides}" else "")
+
+/-- write 100+k at the k-th multi-index (row-major enumeration) over a buffer of -1 -/
+def probe (st : St) : St :=
+  let blank : St := { st with data := List.replicate st.data.length (-1) }
+  (List.range (prod st.shape)).foldl (fun s k => write s (ndindex st.shape k) (100 + (k : Int))) blank
+
+def tagOf : String → Option KindTag
+  | "fixed" => some .fixed | "hybrid" => some .hybrid | "dynamic" => some .dynamic
+  | s =>
+    match s.toList with
+    | [a, '_', b] =>
+      (match a with | 'c' => some SKTag.c | 'f' => some SKTag.f | 'h' => some SKTag.h | 'd' => some SKTag.d | 'l' => some SKTag.l | _ => none).bind
+        (fun sk => (match b with | 'f' => some BKTag.f | 'h' => some BKTag.h | 'd' => some BKTag.d | _ => none).map (fun bk => KindTag.nd sk bk))
+    | _ => none
+
 def handle : Handler := fun op a =>
   match op with
   | "ndobj" => orBad do
       let kind ← a.get? "kind"
       let c ← cfgOf kind
+      let x := a.get? "x" == some "1"
       let legacy := kind == "hyb" || kind == "dyn"
       let opss ← a.get? "ops"
       let segs := opss.splitOn ";"
-      let rec go (st : St) (tracked : Nat) (l : List String) (acc : List String) : Option (List String) :=
+      let rec go (c : Cfg) (st : St) (tracked : Nat) (l : List String) (acc : List String) : Option (List String) :=
         match l with
         | [] => some acc.reverse
-        | "copy" :: rest => go st tracked rest (fmtState st true st.data.length :: acc)
+        | "copy" :: rest => go c st tracked rest (fmtStateX x st true st.data.length :: acc)
         | "probe" :: rest =>
-            -- write 100+k at the k-th multi-index (row-major enumeration) over a buffer of -1
-            let blank : St := { st with data := List.replicate st.data.length (-1) }
-            let st' := (List.range (prod st.shape)).foldl (fun s k => write s (ndindex st.shape k) (100 + (k : Int))) blank
-            go st' st'.data.length rest (fmtState st' true st'.data.length :: acc)
-        | s :: rest => do
+            let st' := probe st
+            go c st' st'.data.length rest (fmtStateX x st' true st'.data.length :: acc)
+        | s :: rest =>
+          match s.splitOn ":" with
+          | ["cast", k] => do
+              if !x then none
+              let cd ← cfgOf k
+              match castInto cd id st with
+              | none => some ((acc.reverse) ++ ["ub"])
+              | some r => go cd r r.data.length rest (fmtStateX x r true r.data.length :: acc)
+          | ["dcast", t] => do
+              if !x then none
+              let dt ← dtypeOf t
+              match castInto c (convTo dt) st with
+              | none => some ((acc.reverse) ++ ["ub"])
+              | some m =>
+                match castInto c id m with
+                | none => some ((acc.reverse) ++ ["ub"])
+                | some r =>
+                  let via := s!" via={fmtNats m.shape}/{fmtNats (reportedStrides m)}/{fmtNats m.strides}/{fmtInts m.data}"
+                  go c r r.data.length rest ((fmtStateX x r true r.data.length ++ via) :: acc)
+          | _ => do
             let o ← parseOp s
             let (st', r) := step c st o
             let nd := match o with
               | .resize _ => if r then min tracked st'.data.length else st'.data.length
               | _ => st'.data.length
-            go st' st'.data.length rest (fmtState st' r nd :: acc)
-      let out ← go (init c) (if legacy then 0 else (init c).data.length) segs []
+            go c st' st'.data.length rest (fmtStateX x st' r nd :: acc)
+      let out ← go c (init c) (if legacy then 0 else (init c).data.length) segs []
       pure ("ok " ++ " | ".intercalate out)
+  | "castkind" => orBad do
+      let srck ← a.get? "src"
+      let s ← a.nats "shape"
+      let tag ← (a.get? "tag").bind tagOf
+      let base ← a.int "base"
+      let cm ← match srck with | "fx" => some false | "cf" => some false | "cfc" => some true | _ => none
+      let cs : Cfg := ⟨.const s, .fixed (prod s), cm⟩
+      let src := fill (init cs) base
+      match castInto (kindCfg tag s) id src with
+      | none => pure "ub"
+      | some r => pure s!"ok shape={fmtNats r.shape} strides={fmtNats (reportedStrides r)} astrides={fmtNats r.strides} n={r.data.length} data={fmtInts r.data}"
   | "mview" => orBad do
       -- write through a mutable view (source data[k]=k, row-major); report the source buffer afterwards
       let kind ← a.get? "kind"
@@ -72,6 +138,42 @@ def handle : Handler := fun op a =>
             if prod to ≠ n then none else some (ndindex s (computeOffset i (strides to)))
         | _ => none
       pure s!"ok data={fmtInts (write src srcIdx v).data}"
+  | "mviewall" => orBad do
+      let kind ← a.get? "kind"
+      let lay ← a.get? "lay"
+      let cm ← match lay with | "r" => some false | "c" => some true | _ => none
+      let s ← a.nats "shape"
+      let val ← a.int "v"
+      let n := prod s
+      let src : St := { shape := s, strides := stridesOf cm s, data := (List.range n).map (fun (k : Nat) => (k : Int)) }
+      let view : Option IxView ← match kind with
+        | "ref" => some (some ⟨s, s, fun d => some d⟩)
+        | "flatten" => some (flattenView s)
+        | "reshape" => do
+            let to ← a.ints "to"
+            some (reshapeView s to)
+        | "slice" => do
+            let es ← (a.get? "sl").bind NmVerif.Driver.C05.parseEntries
+            let enc ← a.get? "enc"
+            if enc == "packed" then some (Slice.sliceView s es)
+            else if enc == "dynP" || enc == "dynA" then some (Slice.dynamicSliceView s es)
+            else none
+        | _ => none
+      match view with
+      | none => pure "nothing"
+      | some v =>
+        let hd := s!"ok shape={fmtNats v.dst} bufs="
+        let ds := if v.dst.any (· == 0) then [] else allIdx v.dst
+        let rec goV (ds : List (List Nat)) (k : Nat) (acc : List String) : String :=
+          match ds with
+          | [] => hd ++ (if acc.isEmpty then "[]" else ";".intercalate acc.reverse)
+          | d :: rest =>
+            match v.map d with
+            | none => hd ++ s!"unmapped@{k}"
+            | some i =>
+              if decide (InShape i s) then goV rest (k + 1) (fmtInts (write src i val).data :: acc)
+              else hd ++ s!"oob@{k}"
+        pure (goV ds 0 [])
   | _ => none
 
 end NmVerif.Driver.C20
